@@ -300,7 +300,7 @@ func runC07(c *core.Ctx) {
 	c.RunHistories(n, Registry["C07"].Mons, func(w *core.World) {
 		w.Hist += base
 		wts := map[string]int{
-			"edit-new": 10, "edit-mod": 10, "edit-rm": 4, "edit-rmdir": 2,
+			"edit-new": 10, "edit-copy": 2, "edit-copydir": 1, "edit-mod": 10, "edit-rm": 4, "edit-rmdir": 2,
 			"add": 16, "add-all": 2, "rm": 6, "commit": 12, "status": 16,
 			"restore-staged": 6, "reset": 5, "restore": 1, "switch-c": 1, "switch": 1,
 		}
@@ -580,7 +580,7 @@ func runC13(c *core.Ctx) {
 	n := c.Pick(500, 4000)
 	c.RunHistories(n, Registry["C13"].Mons, func(w *core.World) {
 		wts := map[string]int{
-			"edit-new": 12, "edit-mod": 10, "edit-mod-samesize": 5, "edit-rm": 6, "edit-rmdir": 3, "edit-same": 2, "edit-touch": 2,
+			"edit-new": 12, "edit-copy": 2, "edit-copydir": 1, "edit-mod": 10, "edit-mod-samesize": 5, "edit-rm": 6, "edit-rmdir": 3, "edit-same": 2, "edit-touch": 2,
 			"add": 12, "rm": 3, "commit": 3, "status": 26, "restore": 2, "reset": 1, "add-all": 1,
 		}
 		k := NewWalker(w, gen.NameOpts{Space: true, NonASCII: w.Hist%3 == 0, Meta: w.Hist%4 == 0, MaxDepth: 4, N: 7}, wts)
